@@ -1578,6 +1578,53 @@ EX_GUIDED = ("A 2\nT 1\nT 1\nT 1", "0:B,1:B,2:w1+%d,1:*,2:*", range(0, 14), 2)
 EX_ABSORB = ("A 2\nT 1\nT 1\nT 1\nT 1", "0:B,1:B,2:q,1:*,2:o1,3:*,0:e1+40,2:B")
 
 
+# arenas with worker slots (task_arena(S, R), R < S) entered by S+1 application threads while no worker can come (monitor-only: at most one
+# waiter, so the known absorbed-wake-up pattern cannot occur): the thread in a reserved / in a worker slot leaves before, inside and after the
+# waiter's re-check; the waiter must be woken by that very release
+EXW_GUIDED = [("A 2 1\nT 1\nT 1\nT 1", "0:B,1:B,2:w1+%d,1:*,2:*"), ("A 2 1\nT 1\nT 1\nT 1", "0:B,1:B,2:w1+%d,0:*,2:*"),
+              ("A 3 1\nT 1\nT 1\nT 1\nT 1", "0:B,1:B,2:B,3:w1+%d,2:*,3:*"), ("A 3 1\nT 1\nT 1\nT 1\nT 1", "0:B,1:B,2:B,3:w1+%d,1:*,3:*"),
+              ("A 3 2\nT 1\nT 1\nT 1\nT 1", "0:B,1:B,2:B,3:w1+%d,2:*,3:*"), ("A 3 2\nT 1\nT 1\nT 1\nT 1", "0:B,1:B,2:B,3:w1+%d,1:*,3:*")]
+EXW_OFFSETS = list(range(0, 14)) + [20, 40]
+
+
+def run_exw(ck, exe):
+    quick = ck.tier == "quick"
+    bad, nruns, parked = [], 0, 0
+    for scn, tmpl in EXW_GUIDED:
+        jobs = [("guided", tmpl % k, str(ck.seed + 1)) for k in EXW_OFFSETS] + [("rand", str(ck.seed * 100 + 7), str(6 if quick else 60))]
+        for mode, a2, a3 in jobs:
+            rc, out, err = sh([exe, mode, a2, a3], input=scn + "\n", timeout=600)
+            runs = parse_runs(out)
+            if rc not in (0, 1) or not runs:
+                bad.append((scn, {"mon": "harness rc=%d %s" % (rc, (out + err)[-300:]), "sched": [], "ev": [], "guide": a2 if mode == "guided" else None}))
+                continue
+            for r in runs:
+                nruns += 1
+                ck.traces_validated += 1
+                verdict = r["mon"] or "?"
+                w = scn.count("\nT") - 1
+                cls = tuple(sorted(ex_classes(r, w)))
+                parked += 1 if "parked" in cls else 0
+                ck.count(1, ("exw", scn, mode, verdict.split(" ")[0], cls))
+                if verdict != "ok":
+                    if mode == "guided":
+                        r["guide"], r["guide_seed"] = a2, int(a3)
+                    bad.append((scn, r))
+        if len(bad) >= 3:
+            break
+    ck.extra.setdefault("schedules", {})["task_arena_execute_worker_slots"] = {"runs": nruns, "runs_in_which_the_waiter_parked": parked}
+    ck.oblige("monitor:task_arena::execute on arenas with worker slots entered by more application threads than slots while no worker can come — "
+              "a thread waiting for a slot is woken by the release of a reserved slot and of a worker slot alike (no thread sleeps in the exit monitor "
+              "while a slot is free and nobody is on the way to notify_one; no run ends with every thread parked)", "correspondence", not bad,
+              "" if not bad else "%s | scenario %s" % (bad[0][1]["mon"], bad[0][0].replace("\n", " / ")))
+    for scn, r in bad[:1]:
+        verdict = r["mon"] or "?"
+        ck.counterexample("exw:%s:%s" % (verdict.split(" ")[0], " / ".join(scn.split("\n"))),
+                          "task_arena::execute (arena with worker slots, no worker available): %s | scenario %s" % (verdict, scn.replace("\n", " / ")),
+                          {"engine": "E-SHIM", "harness": "ex", "scenario": scn, "schedule": r["sched"], "guide": r.get("guide"),
+                           "guide_seed": r.get("guide_seed"), "monitor": verdict, "trace": [" ".join(e) for e in r.get("ev", [])][:300]})
+
+
 def ex_random_scenario(rng):
     n = rng.choice([3, 4, 4, 5])
     return "A %d\n" % rng.choice([2, 2, 3]) + "\n".join("T %d" % rng.choice([1, 1, 2]) for _ in range(n))
@@ -1797,6 +1844,7 @@ def run(ck):
     bad_corr_a, bad_mon_a = run_ae(ck, ae)
     ex = build_ex()
     bad_corr_x, bad_mon_x = run_ex(ck, ex)
+    run_exw(ck, ex)
     # ---- failing-input search ---------------------------------------------------------------------------------
     if ck.broken() and not ck.counterexamples:
         log("obligations broke without a counterexample: searching")
@@ -1918,6 +1966,12 @@ def replay(ck, obj):
             rc, out, err = sh([exe, "replay", ",".join(r["schedule"]), "1"], input=r["scenario"] + "\n", timeout=300)
         runs = parse_runs(out)
         bad = 0
+        if len(r["scenario"].split("\n")[0].split()) > 2:          # arena with worker slots: monitor-only
+            for rr in runs:
+                print("implementation monitors: %s" % rr["mon"])
+                bad = bad or (1 if rr["mon"] != "ok" else 0)
+            print("\n".join(l for l in out.split("\n") if not l.startswith("sched"))[-2500:])
+            return bad if runs else 1
         for rr, diff, absorbed in replay_ex(r["scenario"], runs):
             print("implementation monitors: %s | a notify_one dequeued a waiter that already held a slot: %s | Lean EX model replay: %s" %
                   (rr["mon"], absorbed, diff or "agrees"))
